@@ -276,13 +276,17 @@ def collisionName (key : CollisionKey) (i : Import) : String :=
 
 /-- `Imports.Reserve(path, alias?)` with the error ignored, as `File.Imports` does: a path that is
 already there, or an alias that is already taken, silently drops the import. The reserved entry's
-`alias` is always explicit (the package name when the user gave none). -/
-def reserve1With (key : CollisionKey) (acc : List Import) (i : Import) : List Import :=
-  if acc.any (·.path == i.path) || acc.any (·.alias == collisionName key i) then acc
+`alias` is always explicit (the package name when the user gave none). `exempt`: the aliases the source
+does not run the collision test for (`if alias != "_" && alias != "." { … findByAlias … }`, `fix:` 0731d3e;
+`[]` = the unconditional test of the source before it, F19h). The guard tests the alias the import will have,
+whatever the lookup key is. -/
+def reserve1With (key : CollisionKey) (exempt : List String) (acc : List Import) (i : Import) : List Import :=
+  if acc.any (·.path == i.path) || (!exempt.contains (userLocal i) && acc.any (·.alias == collisionName key i)) then acc
   else acc ++ [{ i with alias := userLocal i }]
 
-/-- … with the lookup key that is in the source now (regenerated, `Gen/ReserveFacts.collisionKey`) -/
-def reserve1 (acc : List Import) (i : Import) : List Import := reserve1With collisionKey acc i
+/-- … with the lookup key and the exemptions that are in the source now (regenerated, `Gen/ReserveFacts.collisionKey`,
+`collisionExempt`) -/
+def reserve1 (acc : List Import) (i : Import) : List Import := reserve1With collisionKey collisionExempt acc i
 
 def reserve (user : List Import) : List Import := user.foldl reserve1 ambient
 
